@@ -309,7 +309,7 @@ impl Prop for C03 {
         let mut u = universe(rng);
         let db = gen_db(rng, &mut u);
         let nvars = rng.range(2, 4) as u32;
-        let n = rng.range(1, if tier == Tier::Quick { 8 } else { 40 });
+        let n = rng.range(1, if tier == Tier::Quick { 8 } else { 14 });
         let mut ops = Vec::new();
         for _ in 0..n {
             let mut fresh = 10;
